@@ -112,6 +112,7 @@ type c22Case struct {
 	Peers      int        `json:"peers"`        // 1..3
 	Script     []c22Round `json:"script"`       // one entry per sampling round; afterwards: honest
 	SaveFailAt int        `json:"save_fail_at"` // 1-based SaveHistorical call that fails (0: none)
+	CancelAt   int        `json:"cancel_at"`    // the context handed to Start is cancelled at the k-th sampling round (0: never)
 }
 
 func (c c22Case) check() error {
@@ -123,7 +124,7 @@ func (c c22Case) check() error {
 		return errors.New("malformed case: target/suffix")
 	case c.Stash < 0 || (c.Stash > 0 && c.Stash > c.Target-c.Suffix-1):
 		return errors.New("malformed case: stash")
-	case c.Window < 0, c.Fork < -1 || c.Fork >= n, c.Peers < 1 || c.Peers > 3, c.SaveFailAt < 0, c.TS[0] < 1:
+	case c.Window < 0, c.Fork < -1 || c.Fork >= n, c.Peers < 1 || c.Peers > 3, c.SaveFailAt < 0, c.CancelAt < 0, c.TS[0] < 1:
 		return errors.New("malformed case: scalars")
 	}
 	for i := 1; i <= n; i++ {
@@ -160,6 +161,7 @@ var (
 	genScriptLen = weighted[int](3, 4, 4, 4, 2, 3, 5, 3, 6, 2, 1, 2, 7, 1, 0, 1)
 	genN         = rapid.SampledFrom([]int{8, 12, 5, 16, 3, 20, 10, 6, 14, 2, 4, 18, 7, 9, 1, 11, 13})
 	genYoung     = weighted[bool](false, 9, true, 1)
+	genCancel    = weighted[bool](false, 3, true, 1)
 	genSuffix    = weighted[int](0, 9, 2, 10, 1, 1) // none / drawn / everything
 )
 
@@ -265,6 +267,10 @@ func c22Gen(rt *rapid.T) c22Case {
 		}
 		c.Script = append(c.Script, r)
 	}
+	if genCancel.Draw(rt, "cancel-start?") {
+		// the caller's Start context ends in the middle of the backfill (shutdown / deadline)
+		c.CancelAt = rapid.IntRange(1, len(c.Script)+1).Draw(rt, "cancel-at")
+	}
 	if rapid.IntRange(0, 5).Draw(rt, "save-fail?") == 0 {
 		c.SaveFailAt = rapid.IntRange(1, 4).Draw(rt, "save-fail-at")
 	}
@@ -310,6 +316,10 @@ type env struct {
 	skipped   map[string]int
 	abortOnce sync.Once
 	abort     chan struct{}
+
+	cancelStart    context.CancelFunc // ends the context handed to Syncer.Start
+	startCancelled bool
+	cancelled      chan struct{}
 }
 
 func (e *env) fail(format string, args ...any) {
@@ -395,6 +405,11 @@ func (s sampler) Sample(context.Context, int) []ids.NodeID {
 		e.cur = c22Round{Kind: kHonest, Peer: 0}
 	}
 	e.rounds++
+	if e.c.CancelAt != 0 && e.rounds == e.c.CancelAt && !e.startCancelled && !e.over {
+		e.startCancelled = true
+		e.cancelStart()
+		close(e.cancelled)
+	}
 	if e.rounds > len(e.c.Script)+e.n+16 {
 		// cannot happen while the liveness oracle holds unless requests keep timing out on an
 		// overloaded machine: stop the case, no verdict
@@ -753,8 +768,11 @@ func c22Run(c c22Case, st *vstat.Stats) (rerr error) {
 		return err
 	}
 	e := newEnv(c)
+	// ctx is the context handed to Start (owned by the case: the script may cancel it);
+	// Wait always runs on contexts that do not derive from it
 	ctx, cancel := context.WithCancel(context.Background())
 	defer cancel()
+	e.cancelStart, e.cancelled = cancel, make(chan struct{})
 	winF := func(int64) int64 { return c.Window }
 
 	local := newStore(c.SaveFailAt)
@@ -781,11 +799,13 @@ func c22Run(c c22Case, st *vstat.Stats) (rerr error) {
 	syncer := validitywindow.NewSyncer[tx, *blk](local, tvw, client, winF)
 
 	deadline := 20*time.Second + 2*time.Second*time.Duration(len(c.Script))
-	waitCtx, cancelWait := context.WithTimeout(ctx, deadline)
+	waitCtx, cancelWait := context.WithTimeout(context.Background(), deadline)
 	defer cancelWait()
 	go func() {
 		select {
 		case <-e.abort:
+			cancelWait()
+		case <-e.cancelled:
 			cancelWait()
 		case <-waitCtx.Done():
 		}
@@ -794,6 +814,19 @@ func c22Run(c c22Case, st *vstat.Stats) (rerr error) {
 		return fmt.Errorf("Start: %w", err)
 	}
 	werr := syncer.Wait(waitCtx)
+	e.mu.Lock()
+	startCancelled := e.startCancelled
+	e.mu.Unlock()
+	cancelWaitExpired := false
+	if startCancelled && werr != nil && !errors.Is(werr, errInjectedSave) {
+		// the Start context was cancelled by the script: ask again on a fresh, bounded context.
+		// nil is only acceptable if the window really is complete (oracle C below); an error or
+		// waiting until this context ends are both fine.
+		fresh, cancelFresh := context.WithTimeout(context.Background(), 700*time.Millisecond)
+		werr = syncer.Wait(fresh)
+		cancelWaitExpired = werr != nil && fresh.Err() != nil
+		cancelFresh()
+	}
 
 	e.mu.Lock()
 	e.over = true
@@ -813,6 +846,17 @@ func c22Run(c c22Case, st *vstat.Stats) (rerr error) {
 		saveFailed = saveFailed || !ok
 	}
 
+	lowRecorded := e.oldest // lowest height that is local or was recorded successfully, contiguous with the target
+	for i, b := range saved {
+		if !savedOK[i] {
+			break
+		}
+		if int(b.H) < lowRecorded {
+			lowRecorded = int(b.H)
+		}
+	}
+	windowIncomplete := lowRecorded > e.low && lowRecorded > 0
+
 	// ---- outcome
 	outcome := ""
 	switch {
@@ -826,6 +870,8 @@ func c22Run(c c22Case, st *vstat.Stats) (rerr error) {
 		outcome = "done"
 	case errors.Is(werr, errInjectedSave):
 		outcome = "save-error"
+	case startCancelled && (cancelWaitExpired || errors.Is(werr, context.Canceled) || errors.Is(werr, context.DeadlineExceeded)):
+		outcome = "start-cancelled"
 	case errors.Is(werr, context.DeadlineExceeded):
 		outcome = "timeout"
 	default:
@@ -912,7 +958,20 @@ func c22Run(c c22Case, st *vstat.Stats) (rerr error) {
 	if e.young && outcome == "done" && !localComplete {
 		labels = append(labels, "young-chain:stops-at-genesis")
 	}
-	nt := sawNT && !localComplete
+	if c.CancelAt != 0 {
+		if !startCancelled {
+			labels = append(labels, "cancel-start:not-reached")
+		} else {
+			labels = append(labels, "cancel-start:fired")
+			if windowIncomplete {
+				labels = append(labels, "cancel-start:window-incomplete")
+			}
+			if outcome == "start-cancelled" {
+				labels = append(labels, "cancel-start:wait-does-not-report-completion")
+			}
+		}
+	}
+	nt := (sawNT && !localComplete) || (startCancelled && windowIncomplete)
 	canon, _ := json.Marshal(c)
 	st.Case(nt, string(canon), labels...)
 	for k, v := range skipped {
@@ -945,15 +1004,6 @@ func c22Run(c c22Case, st *vstat.Stats) (rerr error) {
 		}
 		prev = h
 	}
-	lowRecorded := e.oldest // lowest height that is local or was recorded successfully, contiguous with the target
-	for i, b := range saved {
-		if !savedOK[i] {
-			break
-		}
-		if int(b.H) < lowRecorded {
-			lowRecorded = int(b.H)
-		}
-	}
 
 	// ---- C: completion
 	switch outcome {
@@ -970,6 +1020,9 @@ func c22Run(c c22Case, st *vstat.Stats) (rerr error) {
 			return fmt.Errorf("completion: Wait returned nil although SaveHistorical call %d failed\nrounds: %s", c.SaveFailAt, renderLog(log))
 		}
 		want := e.low
+		if lowRecorded > want && startCancelled {
+			return fmt.Errorf("completion: the context handed to Start was cancelled in sampling round %d while the backfill was incomplete (recorded ancestry reaches down to height %d, the first block older than the window / genesis is height %d, no forward block completed the window), yet Wait on a fresh context returned nil: a cancelled backfill is reported as a completed validity window\nrounds: %s", c.CancelAt, lowRecorded, want, renderLog(log))
+		}
 		if lowRecorded > want {
 			return fmt.Errorf("completion: Wait returned nil with the recorded ancestry reaching down to height %d only; the first block older than the window (or genesis) is height %d\nrounds: %s", lowRecorded, want, renderLog(log))
 		}
@@ -986,6 +1039,11 @@ func c22Run(c c22Case, st *vstat.Stats) (rerr error) {
 	covLow := e.low // lowest covered height
 	if outcome == "save-error" {
 		covLow = lowRecorded
+	}
+	if outcome == "start-cancelled" {
+		// the backfill goroutine may still be between SaveHistorical and AcceptHistorical:
+		// only the local run is required to be tracked
+		covLow = e.oldest
 	}
 	for h := 0; h <= e.n; h++ {
 		for _, x := range e.chain[h].Txs {
@@ -1095,7 +1153,7 @@ func c22RunBatch(cases []c22Case, st *vstat.Stats) []error {
 	return errs
 }
 
-const c22Rule = "one rapid check = a batch of 64 independent cases run concurrently (the client sleeps 500 ms per round); a case = true chain of 2..21 blocks (non-decreasing timestamps with equal runs, 0..3 txs per block with expiry in [ts, ts+window]), sync target, window placed on/next to a block timestamp, local suffix, init head, a foreign fork, a script of 0..6 peer behaviours (17 kinds) followed by honest answers, optional failing SaveHistorical; non-trivial = before completion the client was handed a well-formed block that is not the next hash-linked ancestor (forged, foreign, reordered, shifted or repeated) and had to fetch at all; distinct by the whole case"
+const c22Rule = "one rapid check = a batch of 64 independent cases run concurrently (the client sleeps 500 ms per round); a case = true chain of 2..21 blocks (non-decreasing timestamps with equal runs, 0..3 txs per block with expiry in [ts, ts+window]), sync target, window placed on/next to a block timestamp, local suffix, init head, a foreign fork, a script of 0..6 peer behaviours (17 kinds) followed by honest answers, optional failing SaveHistorical, optional cancellation of the context handed to Start at a drawn sampling round (Wait is then asked again on a fresh bounded context); non-trivial = before completion the client was handed a well-formed block that is not the next hash-linked ancestor (forged, foreign, reordered, shifted or repeated) and had to fetch at all, or the Start context was cancelled while at least one required ancestor was still missing; distinct by the whole case"
 
 func TestC22(t *testing.T) {
 	st := vstat.New(t, "C22", c22Rule)
